@@ -258,11 +258,17 @@ class _Lock:
             _Lock.fh = None
 
 
+COQC_TIMEOUT = int(os.environ.get("VERIF_COQC_TIMEOUT", "900"))
+
+
 def coq_make(targets, timeout=3000, keep_going=True):
     """make -k <targets> in /verif/coq. Returns (ok, log)."""
     with _Lock():
         coq_makefile()
-        cmd = ["make", "-j%d" % NPROC] + (["-k"] if keep_going else []) + list(targets)
+        # every coqc under its own time limit: a proof script replayed on a REGENERATED term that no longer has the
+        # expected shape may diverge instead of failing (seen with a seeded change to mzd_equal: 37 CPU minutes);
+        # the slowest file of the unchanged tree takes about 3 minutes on a loaded machine
+        cmd = ["make", "-j%d" % NPROC, "COQC=timeout %d coqc" % COQC_TIMEOUT] + (["-k"] if keep_going else []) + list(targets)
         try:
             p = run(cmd, cwd=COQ, timeout=timeout)
         except subprocess.TimeoutExpired as e:
